@@ -107,7 +107,7 @@ def namespace(ctx, log=None):
 
 
 def generate_single(ctx):
-    if not ctx.wants(PROPS | {"C08", "C10"}):
+    if not ctx.wants(PROPS | {"C08", "C10", "C09"}):
         return
     ns = namespace(ctx)
     f = harness.define(ctx, ns, MOD, "run_bldfm_single")
@@ -123,7 +123,7 @@ def generate_single(ctx):
             fl = Op("input.surface_flux", {}) if flux == "given" else None
             cache = Op("input.cache", {})
             run.scope = "interface.run_bldfm_single[%s]" % name
-            run.props = PROPS | {"C08", "C10"}
+            run.props = PROPS | {"C08", "C10", "C09"}
             snapshot = {k: dict(vars(getattr(config, k))) for k in ("domain", "solver")}
             out = harness.call(run, f, config, tower, met_index=i, surface_flux=fl, cache=cache)
             res = out.value
@@ -133,14 +133,14 @@ def generate_single(ctx):
                 return
             for k in want:
                 if k in res:
-                    pr = {"C13"} | ({"C08"} if k in ("flx", "conc", "grid") else set()) | ({"C10"} if k in ("flx", "conc", "grid") else set())
+                    pr = {"C13"} | ({"C08", "C10", "C09"} if k in ("flx", "conc", "grid") else set())
                     run.oblige("pipeline." + k, veq(res[k], want[k]), kind="post", props=pr)
             same = all(dict(vars(getattr(config, k))) == snapshot[k] or
                        all(vars(getattr(config, k))[a] is snapshot[k][a] for a in snapshot[k])
                        for k in snapshot)
             run.oblige("frame.config-not-mutated", SBool(same), kind="frame")
             run.cover("path")
-        ctx.explore("interface.run_bldfm_single[%s]" % name, thunk, PROPS | {"C08", "C10"})
+        ctx.explore("interface.run_bldfm_single[%s]" % name, thunk, PROPS | {"C08", "C10", "C09"})
 
 
 def generate(ctx):
